@@ -14,6 +14,10 @@ pub mod basic_adapter;
 pub mod error;
 pub mod execution;
 mod filtering;
+#[cfg(feature = "trustfall_verif")]
+pub use filtering::verif_hooks as verif_filtering;
+#[cfg(feature = "trustfall_verif")]
+pub use hints::VerifNullableValue;
 pub mod helpers;
 mod hints;
 pub mod replay;
